@@ -2,9 +2,10 @@
 # usage: tools/run_all.sh quick|thorough [ids...]   -- runs the checks sequentially, prints one summary line each
 tier=$1; shift
 ids=${@:-C15 C16 C14 C13 C12 C20 C08 C11 C17 C02 C01 C03 C04 C05 C19 C10 C06}
+L=${LOGDIR:-/tmp}; mkdir -p $L
 for id in $ids; do
   s=$(date +%s)
-  ./check $id --tier $tier > /tmp/run_all_$id.log 2>&1; rc=$?
-  echo "$id tier=$tier exit=$rc $(( $(date +%s) - s ))s :: $(tail -1 /tmp/run_all_$id.log | cut -c1-160)"
-  grep -E "^(VIOLATION|ERROR)" /tmp/run_all_$id.log | head -5
+  ./check $id --tier $tier > $L/run_all_$id.log 2>&1; rc=$?
+  echo "$id tier=$tier exit=$rc $(( $(date +%s) - s ))s :: $(tail -1 $L/run_all_$id.log | cut -c1-160)"
+  grep -E "^(VIOLATION|ERROR)" $L/run_all_$id.log | head -5
 done
